@@ -21,7 +21,10 @@ INC_DIRS = [
 ]
 
 SAN_FLAGS = {
-    "asan": ["-fsanitize=address,undefined", "-fno-sanitize-recover=all", "-fno-omit-frame-pointer"],
+    # _GLIBCXX_ASSERTIONS: every precondition of the standard containers the code relies on (operator[] within size(), front()/back() on a
+    # non-empty container, valid iterator ranges) is checked and aborts; _GLIBCXX_SANITIZE_VECTOR: ASan also poisons the part of a vector
+    # between size() and capacity() — an index that is stale by one after a compaction stays inside the allocation and is invisible otherwise
+    "asan": ["-fsanitize=address,undefined", "-fno-sanitize-recover=all", "-fno-omit-frame-pointer", "-D_GLIBCXX_ASSERTIONS", "-D_GLIBCXX_SANITIZE_VECTOR"],
     "tsan": ["-fsanitize=thread", "-fno-omit-frame-pointer"],
     "none": [],
 }
